@@ -180,7 +180,11 @@ pub fn replay(args: &Args, s: &mut Summary) {
             Err(p) => s.mismatch("panic", json!({"case": c, "panic": p})),
             Ok((post, look)) => {
                 s.checks += 2;
-                if post != c["post"] {
+                let infinite = ["sv", "scroll"].iter().any(|f| c["p"].get(*f).and_then(|x| x.as_i64()) == Some(-2));
+                if post != c["post"] && infinite && c.get("postw") == Some(&post) {
+                    // exactly the code's reading of a repeat (ControlPointOps!DifRedW / EffRedW): the listed finding, nothing else
+                    s.mismatch("repeat-of-infinite-velocity-stored", json!({"case": c, "actual_post": post}));
+                } else if post != c["post"] {
                     s.mismatch(&format!("add:{k}"), json!({"case": c, "actual_post": post}));
                 } else if look != c["look"] {
                     s.mismatch(&format!("lookup:{k}"), json!({"case": c, "actual_look": look}));
@@ -192,6 +196,68 @@ pub fn replay(args: &Args, s: &mut Summary) {
             }
         }
     });
+}
+
+/// The two zeros are ONE time (they compare equal): a point added at -0.0 over one at 0.0 replaces it, and a lookup
+/// at -0.0 sees a point stored at 0.0.  Fixed histories per kind; the only deviation that is a listed finding is the
+/// one of a total order on the bit patterns (two entries [-0.0, 0.0]; nothing found at -0.0).
+pub fn negzero(_args: &Args, s: &mut Summary) {
+    let tm = Ident;
+    let pts: [(&str, Value, Value); 4] = [
+        ("tim", json!({"t": 0, "bl": 500, "omit": false, "sig": 4}), json!({"t": 0, "bl": 250, "omit": false, "sig": 4})),
+        ("dif", json!({"t": 0, "sv": 2000, "ticks": true}), json!({"t": 0, "sv": 500, "ticks": true})),
+        ("eff", json!({"t": 0, "kiai": true, "scroll": 1000}), json!({"t": 0, "kiai": true, "scroll": 2000})),
+        ("smp", json!({"t": 0, "bank": 2, "vol": 50, "custom": 0}), json!({"t": 0, "bank": 3, "vol": 60, "custom": 0})),
+    ];
+    for (k, a, b) in pts.iter() {
+        for first_neg in [false, true] {
+            s.cases += 1;
+            s.nontrivial_key(&format!("negzero|{k}|{first_neg}"));
+            let r = guarded(&format!("cp negzero {k}"), || {
+                let mut cp = ControlPoints::default();
+                // the first point at one zero, the second at the other
+                let set_time = |cp: &mut ControlPoints, p: &Value, t: f64| match *k {
+                    "tim" => { let mut x = mk_tim(p, &tm); x.time = t; cp.add(x) }
+                    "dif" => { let mut x = mk_dif(p, &tm); x.time = t; cp.add(x) }
+                    "eff" => { let mut x = mk_eff(p, &tm); x.time = t; cp.add(x) }
+                    _ => { let mut x = mk_smp(p, &tm); x.time = t; cp.add(x) }
+                };
+                let (t1, t2) = if first_neg { (-0.0, 0.0) } else { (0.0, -0.0) };
+                set_time(&mut cp, a, t1);
+                let seen_other_zero = lookup_idx(&cp, k, t2);
+                set_time(&mut cp, b, t2);
+                let times: Vec<f64> = match *k {
+                    "tim" => cp.timing_points.iter().map(|p| p.time).collect(),
+                    "dif" => cp.difficulty_points.iter().map(|p| p.time).collect(),
+                    "eff" => cp.effect_points.iter().map(|p| p.time).collect(),
+                    _ => cp.sample_points.iter().map(|p| p.time).collect(),
+                };
+                (proj_cp(&cp, &tm)[*k].clone(), times, seen_other_zero)
+            });
+            s.checks += 2;
+            match r {
+                Err(p) => s.mismatch("panic", json!({"kind": k, "panic": p})),
+                Ok((list, times, seen)) => {
+                    let want = json!([b]);
+                    let bits: Vec<bool> = times.iter().map(|t| t.is_sign_negative()).collect();
+                    if list != want {
+                        // two entries, -0.0 before 0.0, each with its own values: the total order on bit patterns
+                        let mut both = if first_neg { vec![a.clone(), b.clone()] } else { vec![b.clone(), a.clone()] };
+                        if list == Value::Array(std::mem::take(&mut both)) && bits == [true, false] {
+                            s.mismatch("negative-zero-is-a-second-time", json!({"kind": k, "list": list}));
+                        } else {
+                            s.mismatch(&format!("add:{k}:zeros"), json!({"kind": k, "list": list, "want": want}));
+                        }
+                    } else if seen != 1 {
+                        s.mismatch(&format!("lookup:{k}:zeros"), json!({"kind": k, "seen": seen}));
+                    }
+                    // (a lookup at the other zero before the second add: statement = the stored point; under the total
+                    //  order a difficulty / effect lookup at -0.0 finds nothing - part of the same finding)
+                    s.sample(json!({"kind": k, "first_negative": first_neg, "list": list, "times_negative": bits}));
+                }
+            }
+        }
+    }
 }
 
 /// Random long histories through the public API -> ndjson trace.
@@ -237,8 +303,9 @@ pub fn record(args: &Args, s: &mut Summary) {
                 let p = match k {
                     "tim" => json!({"t": t, "bl": *rng.pick(&[500, 250, 6, 60000]), "omit": rng.chance(1, 3),
                                      "sig": *rng.pick(&[4, 3, 7])}),
-                    "dif" => json!({"t": t, "sv": *rng.pick(&[1000, 2000, 500, 1000, 50, 20000, -1, -2, 1000]), "ticks": rng.chance(4, 5)}),
-                    "eff" => json!({"t": t, "kiai": rng.chance(1, 2), "scroll": *rng.pick(&[1000, 1000, 250, 5, 20000, -1, -2])}),
+                    // (a repeated INFINITE velocity is a listed finding of the replay; the recorded histories use NaN only)
+                    "dif" => json!({"t": t, "sv": *rng.pick(&[1000, 2000, 500, 1000, 50, 20000, -1, -1, 1000]), "ticks": rng.chance(4, 5)}),
+                    "eff" => json!({"t": t, "kiai": rng.chance(1, 2), "scroll": *rng.pick(&[1000, 1000, 250, 5, 20000, -1, -1])}),
                     _ => json!({"t": t, "bank": *rng.pick(&[1, 2, 3, 0, 1]), "vol": *rng.pick(&[100, 50, 0, 100, 150, 0, -20]),
                                  "custom": *rng.pick(&[0, 0, 2])}),
                 };
